@@ -117,9 +117,43 @@ def describe(molecule):
     return out
 
 
-def run_pass(pairs, cfg, keep=None):
+def build_iterator(pairs, cfg, registry, fargs, margs):
     from singlecellmultiomics.molecule import MoleculeIterator
     fcls, mcls = classes(cfg)
+    return MoleculeIterator(pairs, molecule_class=mcls, fragment_class=recording(fcls, registry),
+                            check_eject_every=cfg.get('eject'), perform_qflag=False, pooling_method=1,
+                            yield_invalid=cfg['yinv'], yield_overflow=cfg['yover'],
+                            fragment_class_args=fargs, molecule_class_args=margs)
+
+
+def run_sweep(lib, sweep):
+    """construction history: ONE fragment_class_args / molecule_class_args dict reused to construct several lazy
+    MoleculeIterators, with umi_hamming_distance / max_associated_fragments updated between the constructions;
+    the iterators are consumed only afterwards.  Every iterator must use the settings it was constructed with."""
+    cfg = lib['cfg']
+    h = header()
+    fargs = {'umi_hamming_distance': cfg['d'], 'assignment_radius': cfg['r']}
+    margs = {'max_associated_fragments': cfg.get('cap')}
+    built = []
+    for sw in sweep:
+        fargs['umi_hamming_distance'] = sw['d']
+        margs['max_associated_fragments'] = sw['cap']
+        pairs = [mk_pair(h, s) for s in lib['reads']]
+        registry = []
+        dups = [any(r.is_duplicate for r in p if r is not None) for p in pairs]
+        built.append((build_iterator(pairs, cfg, registry, fargs, margs), registry, dups, dict(cfg, d=sw['d'], cap=sw['cap'])))
+    out = []
+    for it, registry, dups, c in built:
+        try:
+            molecules = list(it)
+            frags = [abstract(f, c, dups[i]) for i, f in enumerate(registry)]
+            out.append({'frags': frags, 'pass1': [describe(m) for m in molecules], 'pass2': None, 'bam': None})
+        except BaseException as e:
+            out.append({'error': '%s: %s' % (type(e).__name__, e)})
+    return out
+
+
+def run_pass(pairs, cfg, keep=None):
     registry = []
     fargs = {'umi_hamming_distance': cfg['d'], 'assignment_radius': cfg['r']}
     margs = {}
@@ -128,10 +162,7 @@ def run_pass(pairs, cfg, keep=None):
     if cfg.get('cache') is not None:
         margs['cache_size'] = cfg['cache']
     dups = [any(r.is_duplicate for r in p if r is not None) for p in pairs]
-    it = MoleculeIterator(pairs, molecule_class=mcls, fragment_class=recording(fcls, registry),
-                          check_eject_every=cfg.get('eject'), perform_qflag=False, pooling_method=1,
-                          yield_invalid=cfg['yinv'], yield_overflow=cfg['yover'],
-                          fragment_class_args=fargs, molecule_class_args=margs)
+    it = build_iterator(pairs, cfg, registry, fargs, margs)
     molecules = list(it)
     frags = [abstract(f, cfg, dups[i]) for i, f in enumerate(registry)]
     if len(registry) != len(pairs):
@@ -163,6 +194,8 @@ def bam_roundtrip(molecules, cfg, h, n):
 
 def one(lib, n):
     cfg = lib['cfg']
+    if lib.get('history'):
+        return run_sweep(lib, lib['history']['sweep'])[lib['history']['index']]
     h = header()
     pairs = [mk_pair(h, s) for s in lib['reads']]
     keep = []
@@ -170,6 +203,8 @@ def one(lib, n):
     res = {'frags': frags, 'pass1': mols, 'pass2': None, 'bam': None}
     if lib.get('bam'):
         res['bam'] = bam_roundtrip(keep, cfg, h, n)
+    if lib.get('sweep'):
+        res['sweep'] = run_sweep(lib, lib['sweep'])
     if lib.get('retag'):
         f2, m2 = run_pass(pairs, cfg)
         res['pass2'] = m2
